@@ -292,6 +292,42 @@ def confirm_events(ctx, kind, cands):
     return confirmed
 
 
+def confirm_replay(ctx, kind, cands):
+    """kinds whose cases carry the specification's prediction (computed by TLC when the case was
+    generated): the case is re-executed in a fresh harness process and compared again"""
+    spec = KINDS[kind]
+    cases, seen = [], set()
+    for c in cands:
+        key = json.dumps(c["event"], sort_keys=True)
+        if key not in seen:
+            seen.add(key)
+            cases.append((c["event"], c.get("stage")))
+    confirmed = []
+    pending = list(range(len(cases)))
+    for attempt in range(8):
+        if not pending:
+            break
+        d = ctx.dir("confirm.%s.%d" % (kind, attempt))
+        inp, diffs = os.path.join(d, "cases.ndjson"), os.path.join(d, "diffs.ndjson")
+        table = spec.get("table")
+        lines = ([table(ctx)] if table else []) + [cases[k][0] for k in pending]
+        vlib.write_ndjson(inp, lines)
+        vlib.harness(["replay", "-in", inp, "-out", diffs])
+        got = {json.dumps(dd["case"], sort_keys=True): dd for dd in vlib.read_ndjson(diffs)}
+        still = []
+        for k in pending:
+            dd = got.get(json.dumps(cases[k][0], sort_keys=True))
+            if dd is None:
+                still.append(k)
+            else:
+                confirmed.append(dict(kind=kind, stage=cases[k][1], case=cases[k][0], obs=dd["obs"], exp=cases[k][0].get("exp"),
+                                      descr=spec["describe"](cases[k][0], dd["obs"], {"exp": cases[k][0].get("exp")})))
+        pending = still
+    if pending:
+        raise Broken("candidate (%s) did not reproduce in 8 re-executions: %s" % (kind, json.dumps(cases[pending[0]][0])[:300]))
+    return confirmed
+
+
 def confirm_all(ctx, cands):
     out = []
     kinds = []
@@ -300,7 +336,12 @@ def confirm_all(ctx, cands):
             kinds.append(c["kind"])
     for k in kinds:
         sub = [c for c in cands if c["kind"] == k]
-        out += confirm_eval(ctx, sub) if k == "eval" else confirm_events(ctx, k, sub)
+        if k == "eval":
+            out += confirm_eval(ctx, sub)
+        elif KINDS[k].get("module"):
+            out += confirm_events(ctx, k, sub)
+        else:
+            out += confirm_replay(ctx, k, sub)
     return out
 
 
@@ -805,6 +846,74 @@ def run_C19(ctx):
             ctx.candidates.append(dict(kind="conc", stage="sessions", descr=descr, case={"header": events[0], "event": ev}))
     # recorded events are evidence of what the real code did; they are not re-executed (a schedule cannot be replayed)
     return vlib.finish(ctx, None)
+
+
+_value_table = {}
+
+
+def describe_values(ev, obs, entry):
+    op = ev.get("op")
+    uni = _value_table.get("universe") or []
+
+    def nm(i):
+        return pretty.sv(uni[i - 1]) if 0 < i <= len(uni) else "#%d" % i
+    if op == "setlaws":
+        what = "set built from [%s] vs set built from [%s]" % (", ".join(nm(i) for i in ev.get("a") or []), ", ".join(nm(i) for i in ev.get("b") or []))
+    elif op == "reclaws":
+        what = "record {%s} vs record {%s}" % (", ".join("%s: %s" % (e["key"], nm(e["idx"])) for e in ev.get("r1") or []),
+                                               ", ".join("%s: %s" % (e["key"], nm(e["idx"])) for e in ev.get("r2") or []))
+    elif op == "valuehist":
+        what = "history " + " ".join("%s%s" % (s["a"], json.dumps({k: v for k, v in s.items() if k != "a"}) if len(s) > 1 else "") for s in ev.get("steps") or [])
+    else:
+        what = "universe equality / text / JSON forms"
+    o = json.dumps(obs)[:400]
+    return "values %s => observed %s, specified %s" % (what, o, json.dumps(entry.get("exp"))[:300])
+
+
+def value_table_case(ctx):
+    return dict(op="valuetable", universe=_value_table["universe"], exp=_value_table["exp"])
+
+
+for _k in ("setlaws", "reclaws", "valuehist", "valuetable"):
+    KINDS[_k] = dict(module=None, describe=describe_values, table=value_table_case)
+
+
+def add_m2_kinds(ctx, name, module, extra, cfg, min_cases, timeout=7200):
+    """like add_m2, the candidate kind is the case's own op"""
+    before = len(ctx.candidates)
+    st = vlib.generate_and_replay(ctx, name, module, cfg, extra, min_cases=min_cases, timeout=timeout)
+    new = ctx.candidates[before:]
+    ctx.candidates = ctx.candidates[:before]
+    for c in new:
+        ctx.candidates.append(dict(kind=c["case"]["op"], stage=name, event=c["case"]))
+    return st
+
+
+@prop("C11")
+def run_C11(ctx):
+    ctx.rule = ("spec/ValueLaws.tla: a set is the set of its distinct members, a record a function (SetObs / RecObs), values are "
+                "immutable (state machine over construct / mutate input / take accessor output / mutate output / observe). M2: "
+                "every sequence of <= MaxLen values of a universe built to collide in the implementation's hash (true / 1 / decimal "
+                "0.0001 / 1ms / datetime 1, neighbouring longs, sets with equal additive hashes, the same members in different "
+                "insertion orders, nested sets and records), paired with permutations, duplications, prefixes and one-element "
+                "replacements: expected length, membership of every universe value, equality (both directions, through Equal, "
+                "through `==` in the evaluator, through membership in a set of sets), containsAll / containsAny; record pairs; "
+                "the universe's equality matrix and text / JSON forms. Every interleaving of the immutability history is replayed "
+                "on Set, Record and EntityUIDSet. distinct = distinct cases.")
+    ctx.assumptions = ["true 64-bit FNV collisions between strings are not constructed; the universe exploits numeric hashes "
+                       "and the additive set hash"]
+    q = ctx.quick
+    consts = 'CONSTANT Mode = "laws"\nCONSTANT MaxLen = %d\n' % (2 if q else 3)
+    add_m2_kinds(ctx, "laws", "MC_ValueLaws", ["mc/MC_ValueLaws.tla"], GEN_CFG + consts, min_cases=2000)
+    with open(os.path.join(ctx.work, "laws.gen", "cases.ndjson")) as f:
+        for line in f:
+            if '"op":"valuetable"' in line:
+                t = json.loads(line)
+                _value_table.update(universe=t["universe"], exp=t["exp"])
+                break
+    hist = 'CONSTANT Mode = "hist"\nCONSTANT MaxLen = %d\nCONSTRAINT Bounded\nPROPERTY Immutable\n' % (5 if q else 7)
+    add_m2_kinds(ctx, "history", "MC_ValueLaws", ["mc/MC_ValueLaws.tla"], GEN_CFG + hist, min_cases=200)
+    return vlib.finish(ctx, confirm_all)
 
 
 # ====================================================================== replay of a stored violation
